@@ -116,7 +116,7 @@ def generate(rng, tier, idx):
             odd = []
         return {'prop': ID, 'mode': 'repo', 'order_key': '%016x' % rng.getrandbits(64), 'tree': tree, 'manifests': [],
                 'odd': odd, 'late_odd': late, 'ops': ops}
-    g = GT.gen_tree(rng, {'top': 'Manifest'})
+    g = GT.gen_tree(rng, {'top': 'Manifest', 'p_style': 0.15})
     info = g['info']
     dmg = []
     for _ in range(rng.choice([1, 1, 2, 3])):
